@@ -73,17 +73,44 @@ def _no_leafless_elements(U, t, v):
     return go(t, v)
 
 
+def _deep_universe(draw):
+    """orders[i].customer.address.city: an array of objects with two further nesting levels,
+    every level populated (the flat notation spells the whole path for every leaf)"""
+    occ1 = {"min": 0, "max": 1, "nillable": True}
+    salt = draw(st.integers(0, 2 ** 32 - 1))
+    tns = "urn:t%08x" % salt
+    leaf = [["city", {"k": "prim", "t": "Unicode", "f": {}, "occ": dict(occ1, min=draw(st.sampled_from([0, 1])))}],
+            ["zip", {"k": "prim", "t": "Integer", "f": {}, "occ": occ1}]]
+    U = {"tns": tns, "nss": [tns], "enums": [], "classes": [
+        {"name": "C0", "ns": tns, "extends": None, "fields": leaf},
+        {"name": "C1", "ns": tns, "extends": None,
+         "fields": [["name", {"k": "prim", "t": "Unicode", "f": {}, "occ": occ1}],
+                    ["address", {"k": "ref", "n": "C0", "occ": dict(occ1, min=draw(st.sampled_from([0, 1])))}]]},
+        {"name": "C2", "ns": tns, "extends": None,
+         "fields": [["id", {"k": "prim", "t": "Integer", "f": {}, "occ": occ1}],
+                    ["customer", {"k": "ref", "n": "C1", "occ": occ1}]]}]}
+    shape = draw(st.sampled_from(["array", "multi"]))
+    t = {"k": "array", "of": {"k": "ref", "n": "C2"}, "occ": occ1} if shape == "array" else \
+        {"k": "ref", "n": "C2", "occ": {"min": 0, "max": "unbounded", "nillable": True}}
+    m = {"name": "m0", "args": [["orders", t]], "ret": [], "style": "wrapped"}
+    return U, m
+
+
 def cases(tier):
     @st.composite
     def one(draw):
-        U = draw(spec.universes(max_classes=3, xml=False, multi_ns=False))
-        m = draw(spec.methods(U, name="m0", styles=("wrapped",), xml=False, multi_ret=False))
+        deep = draw(st.integers(0, 7)) == 0
+        if deep:
+            U, m = _deep_universe(draw)
+        else:
+            U = draw(spec.universes(max_classes=3, xml=False, multi_ns=False))
+            m = draw(spec.methods(U, name="m0", styles=("wrapped",), xml=False, multi_ret=False))
         # one primitive return (or none)
-        if draw(st.booleans()):
+        if not deep and draw(st.booleans()):
             m["ret"] = [dict(draw(spec.prim_trefs(facets=False)), occ={"min": 0, "max": 1, "nillable": True})]
         else:
             m["ret"] = []
-        vg = values.ValueGen(U, special_floats=False)
+        vg = values.ValueGen(U, special_floats=False, full=deep)
         vg.nil_unspellable = True
         args = []
         for _, t in m["args"]:
@@ -123,6 +150,9 @@ def cases(tier):
                 "sparse": (not strict) and draw(st.booleans()),
                 "perm": draw(st.integers(0, 10 ** 6)),
                 "validator": draw(st.sampled_from([None, "soft"])),
+                # another HttpRpc instance with a different hier_delim decodes the same classes
+                # first (two endpoints publishing one service)
+                "nb": draw(st.integers(0, 3)) == 0,
                 "part": "req"}
     return one()
 
@@ -207,6 +237,20 @@ def run_case(case, rec):
         fails.append(("C03|build-raises|%s|%s" % (et, where), "building raised %r" % (e,)))
         rec.case(case, failures=fails, classes=["build_error"])
         return fails
+    if case.get("nb"):
+        names = _names(m, U)
+        others = [d for d in DELIMS if d != case["delim"] and not any(d in n for n in names)]
+        if others:
+            od = others[case["perm"] % len(others)]
+            try:
+                nb_app = build.make_app([svc], U["tns"], HttpRpc(validator=case["validator"], hier_delim=od),
+                                        HttpRpc())
+                nb_pairs = ref_flat.Flat(U, od).request_pairs(m, case["args"], None)
+                drive.wsgi_call(WsgiApplication(nb_app), drive.environ(
+                    "GET", "/m0", ref_flat.query_string(nb_pairs), content_type=None, content_length=None))
+            except Exception:
+                rec.count("neighbour-build-failed")
+            R.reset()
     fl = ref_flat.Flat(U, case["delim"])
     imap = (lambda i: 2 * i + 3) if case["sparse"] else None
     pairs = fl.request_pairs(m, case["args"], imap)
